@@ -53,6 +53,7 @@ type proxy struct {
 	stalled atomic.Bool
 	accepts atomic.Int32
 	refuse  atomic.Bool // accept and close at once (an RST-like refusal that is still counted)
+	opnFail atomic.Bool // let HEL/ACK through and cut the connection when the client sends OpenSecureChannel
 }
 
 func newProxy(target string) (*proxy, error) {
@@ -97,6 +98,9 @@ func (p *proxy) serve(c net.Conn) {
 			n, err := src.Read(buf)
 			for p.stalled.Load() {
 				time.Sleep(2 * time.Millisecond)
+			}
+			if n >= 3 && src == c && string(buf[:3]) == "OPN" && p.opnFail.Load() {
+				break // the client's OpenSecureChannel request is dropped with the connection
 			}
 			if n > 0 {
 				if _, werr := dst.Write(buf[:n]); werr != nil {
@@ -295,6 +299,18 @@ func runScenario(sc string) (events []string, extra string) {
 		auto = steps[0] == "auto=1"
 		steps = steps[1:]
 	}
+	// ch: the states are also delivered through StateChangedCh and recorded as "f.ch <State>"
+	// c:opnfail / c:down: the first Connect is made while that fault is active (it fails), then the
+	// fault is lifted and Connect is called again on the same client
+	useCh, connectFault := false, ""
+	for len(steps) > 0 && (steps[0] == "ch" || strings.HasPrefix(steps[0], "c:") || strings.HasPrefix(steps[0], "#")) {
+		if steps[0] == "ch" {
+			useCh = true
+		} else if strings.HasPrefix(steps[0], "c:") {
+			connectFault = steps[0][2:]
+		}
+		steps = steps[1:]
+	}
 	// two long-lived server instances per process: "restart" switches the proxy to the other
 	// one (which knows none of the sessions and subscriptions of the first: session loss)
 	targets, err := servers()
@@ -340,18 +356,51 @@ func runScenario(sc string) (events []string, extra string) {
 		}},
 		ClientACK: uacp.DefaultClientACK,
 	}
-	c, err := opcua.NewClient("opc.tcp://"+px.addr,
+	opts := []opcua.Option{
 		opcua.SecurityMode(ua.MessageSecurityModeNone),
 		opcua.AutoReconnect(auto),
-		opcua.ReconnectInterval(30*time.Millisecond),
-		opcua.RequestTimeout(2*time.Second),
+		opcua.ReconnectInterval(30 * time.Millisecond),
+		opcua.RequestTimeout(2 * time.Second),
 		opcua.Dialer(dialer),
 		opcua.StateChangedFunc(func(s opcua.ConnState) { tr.add("st " + s.String()) }),
-	)
+	}
+	if useCh {
+		stateCh := make(chan opcua.ConnState)
+		go func() {
+			for s := range stateCh {
+				tr.add("f.ch " + s.String())
+			}
+		}()
+		opts = append(opts, opcua.StateChangedCh(stateCh))
+	}
+	c, err := opcua.NewClient("opc.tcp://"+px.addr, opts...)
 	if err != nil {
 		return nil, "infra: newclient: " + err.Error()
 	}
 	ctx := context.Background()
+	if connectFault != "" {
+		switch connectFault {
+		case "opnfail":
+			px.opnFail.Store(true)
+		case "down":
+			px.down()
+		case "rst":
+			px.refuse.Store(true)
+		}
+		tr.add("f." + connectFault)
+		tr.add("u.connect")
+		if err := c.Connect(ctx); err == nil {
+			return tr.snapshot(), "infra: Connect succeeded under fault " + connectFault
+		}
+		tr.add("u.connect.err")
+		px.opnFail.Store(false)
+		px.refuse.Store(false)
+		if err := px.up(); err != nil {
+			return tr.snapshot(), "infra: proxy up: " + err.Error()
+		}
+		tr.add("f.up")
+		time.Sleep(30 * time.Millisecond)
+	}
 	tr.add("u.connect")
 	if err := c.Connect(ctx); err != nil {
 		tr.add("u.connect.err")
@@ -383,13 +432,13 @@ func runScenario(sc string) (events []string, extra string) {
 	}
 	for _, st := range steps {
 		if closed {
-			if strings.HasPrefix(st, "w") {
+			if strings.HasPrefix(st, "w") && st != "waitclosed" {
 				time.Sleep(ms(st[1:]))
 			}
 			continue
 		}
 		switch {
-		case strings.HasPrefix(st, "w"):
+		case strings.HasPrefix(st, "w") && st != "waitclosed":
 			time.Sleep(ms(st[1:]))
 		case st == "cut":
 			tr.add("f.cut")
@@ -417,6 +466,20 @@ func runScenario(sc string) (events []string, extra string) {
 			time.Sleep(ms(st[3:]))
 			px.refuse.Store(false)
 			tr.add("f.up")
+		case strings.HasPrefix(st, "opnfail"):
+			// connections get through HEL/ACK and are cut at the OpenSecureChannel request
+			tr.add("f.opnfail")
+			px.opnFail.Store(true)
+			px.cut()
+			time.Sleep(ms(st[7:]))
+			px.opnFail.Store(false)
+			tr.add("f.up")
+		case st == "waitclosed":
+			deadline := time.Now().Add(5 * time.Second)
+			for c.State() != opcua.Closed && time.Now().Before(deadline) {
+				time.Sleep(2 * time.Millisecond)
+			}
+			time.Sleep(40 * time.Millisecond)
 		case strings.HasPrefix(st, "stall"):
 			tr.add("f.stall")
 			px.stalled.Store(true)
@@ -556,13 +619,25 @@ func scenarios(o *h.Opts, rnd *h.Rand) []string {
 		"auto=0 w30 cut w100",
 		"auto=0 w30 down100 w50",
 		"auto=0 w30 close w50",
+		"auto=1 w30 opnfail150 w30",
+		"auto=1 w30 restart opnfail120 w30",
+		"auto=1 c:opnfail w200",
+		"auto=1 c:down w100 cut w50",
+		"auto=1 c:rst w100",
+		"auto=0 ch #1 w30 cut waitclosed",
+		"auto=0 ch #2 w30 cut waitclosed",
+		"auto=0 ch #3 w20 cut waitclosed",
+		"auto=0 ch #4 w20 down60 waitclosed",
+		"auto=0 ch #5 w30 rst50 waitclosed",
+		"auto=0 ch #6 w10 cut waitclosed",
+		"auto=1 ch w30 cut w60",
 		"auto=1 w30 closeAt:createSecureChannel cut trap w100",
 		"auto=1 w30 closeAt:restoreSession cut trap w100",
 		"auto=1 w30 closeAt:restoreSubscriptions cut trap w100",
 		"auto=1 w30 closeAt:recreateSession restart trap w100",
 		"auto=1 w30 closeAt:transferSubscriptions restart trap w100",
 	}
-	faults := []string{"cut", "down%d", "rst%d", "stall%d", "restart", "sdown%d", "cut", "down%d"}
+	faults := []string{"cut", "down%d", "rst%d", "stall%d", "restart", "sdown%d", "cut", "down%d", "opnfail%d"}
 	for i := 0; i < o.N(6, 150); i++ {
 		sc := "auto=1 w" + fmt.Sprint(10+rnd.Intn(40))
 		n := 1 + rnd.Intn(4)
@@ -721,8 +796,19 @@ func main() {
 		// ---- the property's own oracle, on the trace alone
 		last, closeEnded, userClosed := "Closed", false, false
 		lastSt := ""
+		faultSinceConnected := false
+		var chStates []string
+		chClosedBeforeClose, sawMonitorDisc := false, false
 		for _, e := range marks {
 			switch {
+			case strings.HasPrefix(e, "f.ch "):
+				x := strings.TrimPrefix(e, "f.ch ")
+				chStates = append(chStates, x)
+				if x == "Closed" && !userClosed {
+					chClosedBeforeClose = true
+				}
+			case e == "f.cut" || e == "f.down" || e == "f.rst" || e == "f.stall" || e == "f.restart" || e == "f.opnfail":
+				faultSinceConnected = true
 			case e == "u.close":
 				userClosed = true
 			case e == "u.close.end":
@@ -732,6 +818,23 @@ func main() {
 			case strings.HasPrefix(e, "st "):
 				x := strings.TrimPrefix(e, "st ")
 				lastSt = x
+				if x == "Connected" {
+					faultSinceConnected = false
+				}
+				if x == "Disconnected" {
+					sawMonitorDisc = true
+					if !faultSinceConnected && !userClosed {
+						// the client reports a lost connection although nothing happened to it since it was (re)connected
+						sig := ""
+						if strings.Contains(sc, " c:") {
+							sig = "C25.stale-error-after-failed-connect"
+						}
+						r.Fail(sc, sig, "Disconnected reported without any fault since the last Connected")
+						if sig != "" {
+							r.Confirm(sig, sc+" -> "+strings.Join(lts, " "))
+						}
+					}
+				}
 				if !documented(last, x) {
 					sig := ""
 					// narrow signature: a report out of Closed by the monitor goroutine after the user's Close reported Closed
@@ -762,6 +865,15 @@ func main() {
 		}
 		if userClosed && lastSt != "Closed" {
 			r.Fail(sc, "", "last reported state after Close is "+lastSt)
+		}
+		if strings.Contains(sc, " ch ") {
+			r.Hit("state-channel")
+			if len(chStates) == 0 || chStates[len(chStates)-1] != "Closed" {
+				r.Fail(sc, "", "StateChangedCh: the last state delivered on the channel is not Closed: "+strings.Join(chStates, ","))
+			}
+			if auto == "0" && sawMonitorDisc && !chClosedBeforeClose {
+				r.Fail(sc, "", "StateChangedCh: auto-reconnect off, connection lost, but Closed was not delivered on the channel before the user called Close: "+strings.Join(chStates, ","))
+			}
 		}
 	}
 	for _, b := range []string{"action:createSecureChannel", "action:restoreSession", "action:recreateSession", "action:transferSubscriptions",
